@@ -208,6 +208,17 @@ func judge(reply *dns.Msg, c judgeCtx) judgement {
 		}
 		return j
 	}
+	if c.e.res.OptOut && c.phase != "control" {
+		// The name is only covered by an NSEC3 opt-out span: RFC 5155 §12.2 —
+		// anything may be forged there as an insecure delegation, and every
+		// validator accepts it as insecure. Only the AD rule applies.
+		j.Class = "OPTOUT-SPAN"
+		if reply.AuthenticatedData {
+			j.Sig = "ad/set-on-optout-proof/" + tag
+			j.What = fmt.Sprintf("AD=1 although the name is only covered by an opt-out span: %s", c.q)
+		}
+		return j
+	}
 	j.Class, j.Why = classify(reply, c.e)
 	if sec, rr := findPadding(reply); sec != "" && j.Class != clsOther {
 		// The statement: a response padded with foreign records yields
